@@ -750,6 +750,10 @@ func (s *inProcessClientStream) ensureNoMoreLocked(m interface{}) error {
 		s.last = &frame{err: status.Error(codes.Internal, "method should return 1 response message but server sent >1")}
 		s.state = streamStateClosed
 		return s.last.err
+	} else if err != io.EOF {
+		// the RPC failed after the server sent its one response message:
+		// the failure takes precedence (as it does with a normal gRPC channel)
+		return err
 	}
 	return nil
 }
